@@ -162,6 +162,7 @@ type Eval struct {
 	refs             map[string]Layout // loop-invariant values referenced at offsets affine in t
 	mapGlobals       []*Obj
 	Reads            []ReadInfo
+	walkToks         map[string]*TokensV       // per input string (by description): the virtual tokens of a sentence cut word by word
 	QuoteRenders     []QuoteRec                // files rendered by hand in the generator (bufferRendered)
 	limited          map[*Obj]limitedRead      // buffers read through io.LimitReader (refineLimited)
 	errObj           map[ssa.Instruction]*Obj  // per read call: what is known about its error on the current path
@@ -3301,6 +3302,19 @@ func maskRun(c int64) (lo, w int64, ok bool) {
 }
 
 func (e *Eval) arith(fr *frame, x *ssa.BinOp, a, b IntV) IntV {
+	if x.Op == token.ADD && (a.Sep != nil || b.Sep != nil) {
+		s, o := a, b
+		if s.Sep == nil {
+			s, o = b, a
+		}
+		if c, ok := o.Const(); ok && o.Sep == nil && c >= 0 && c < 16 {
+			r := RangeInt(s.Lo+c, s.Hi)
+			ref := *s.Sep
+			ref.Off += c
+			r.Sep = &ref
+			return r
+		}
+	}
 	if a.Kind == ikMinLen || b.Kind == ikMinLen {
 		ca, aC := a.Const()
 		cb, bC := b.Const()
@@ -3808,6 +3822,18 @@ func (e *Eval) compare(fr *frame, x *ssa.BinOp, a, b AV) AV {
 			}
 			return KBool(x.Op == token.NEQ)
 		}
+		if gv, ok := o.(GlobalValV); ok && e.G != nil && gv.G != nil {
+			// the value of an interface-typed package variable whose declaration gives it a
+			// non-nil value (the randomness source) and that nothing but tests assigns (E1, F3b)
+			if iv, ok := e.G.Init[gv.G]; ok && iv != nil {
+				if _, isNilV := iv.(NilV); !isNilV {
+					if _, isTop := iv.(TopV); !isTop {
+						e.Relied[gv.G] = true
+						return KBool(x.Op == token.NEQ)
+					}
+				}
+			}
+		}
 		if pv, ok := o.(PtrV); ok && (pv.G != nil || pv.O != nil || pv.Elem != nil) {
 			// the address of a variable, of an allocated object, or of an element: not nil
 			return KBool(x.Op == token.NEQ)
@@ -4218,6 +4244,33 @@ func (e *Eval) index(fr *frame, x *ssa.Index, st State) AV {
 
 func (e *Eval) slice(fr *frame, x *ssa.Slice, st State) AV {
 	base := e.val(fr, x.X)
+	if sv, ok := base.(StrV); ok && x.Max == nil {
+		// rest[:end] / rest[end+1:] with end the position of the next separator in what is left
+		// of a sentence cut word by word: the next token / what is left after it
+		if toks, k, ok := e.cursorOf(sv); ok && sv.Kind != skTok {
+			pick := func(v ssa.Value) (*SepRef, bool) {
+				if v == nil {
+					return nil, false
+				}
+				iv, ok := e.val(fr, v).(IntV)
+				return iv.Sep, ok && iv.Sep != nil
+			}
+			n, okN := toks.N.Const()
+			if hi, ok := pick(x.High); ok && x.Low == nil && hi.Toks == toks && hi.K == k && hi.Off == 0 {
+				e.event("P2", Discharged, x, "slice up to the position strings.IndexByte found in the same string")
+				return StrV{Kind: skTok, Toks: toks, Idx: CInt(k)}
+			}
+			if lo, ok := pick(x.Low); ok && x.High == nil && lo.Toks == toks && lo.K == k && okN {
+				if sep, isC := toks.Sep.(StrV); isC && sep.Kind == skConst && lo.Off == int64(len(sep.S)) {
+					e.event("P2", Discharged, x, "slice from just after the separator strings.IndexByte found in the same string")
+					if k+1 >= n-1 {
+						return StrV{Kind: skTok, Toks: toks, Idx: CInt(k + 1)} // the last token: nothing follows it
+					}
+					return StrV{Kind: skCursor, Toks: toks, Idx: CInt(k + 1)}
+				}
+			}
+		}
+	}
 	get := func(v ssa.Value, def IntV) IntV {
 		if v == nil {
 			return def
